@@ -88,6 +88,7 @@ def run(ctx):
         labels.append("multi%d" % min(n, 8))
     rc, out = ctx.run([impl], input="\n".join(cases) + "\n")
     ol = out.splitlines()
+    ctx.log("implementation parsed %d directories / entries" % len(cases))
     if rc != 0 or len(ol) != len(cases):
         ctx.broken("correspondence(c34:run)", "impl rc=%d lines=%d/%d %s" % (rc, len(ol), len(cases), out[-300:]))
         return
